@@ -1136,6 +1136,12 @@ Proof.
   rewrite forallb_forall in F. specialize (F _ Hl). cbn [fst snd] in F. congruence.
 Qed.
 
+(* F25 stated on the former writer by name *)
+Lemma former_writer_long_value_misread :
+  exists p p', validate p = Some p /\ transportable_p p /\
+               unmarshal_bin (marshal_bin_former (fun l => l) p) = Some p' /\ p_tid p' <> p_tid p.
+Proof. exact long_value_misread. Qed.
+
 (* ---------- the binary writer as it is now (checks the 16-bit bound; fix of F25) ---------- *)
 
 Lemma fits16_short kv : fits16 kv = true -> N.of_nat (length (snd kv)) < 65536.
